@@ -63,6 +63,16 @@ func (Area) Extra() map[string]any {
 // claimMutate: descriptions that only list services (what a reflection resolver with OnlyServices delivers);
 // successive descriptions of a target keep, add, drop and re-order claims, often overlapping with the other targets'.
 func claimMutate(r *rand.Rand, name string, prev *c06.DescSpec, others []*c06.DescSpec) *c06.DescSpec {
+	return claimMutateWith(svcPool)(r, name, prev, others)
+}
+
+func claimMutateWith(svcPool []string) func(r *rand.Rand, name string, prev *c06.DescSpec, others []*c06.DescSpec) *c06.DescSpec {
+	return func(r *rand.Rand, name string, prev *c06.DescSpec, others []*c06.DescSpec) *c06.DescSpec {
+		return claimMut(r, svcPool, name, prev, others)
+	}
+}
+
+func claimMut(r *rand.Rand, svcPool []string, name string, prev *c06.DescSpec, others []*c06.DescSpec) *c06.DescSpec {
 	d := &c06.DescSpec{Name: name}
 	if prev != nil && r.Intn(5) != 0 {
 		for _, s := range prev.Services {
@@ -175,7 +185,11 @@ func (Area) Gen(r *rand.Rand, tier string, emit func(string)) {
 		if r.Intn(8) == 0 {
 			l.Pool = targets[:2] // "c" has no pooled connection: Unavailable
 		}
-		l.Ops = c06.GenHistory(r, 2+r.Intn(maxOps-1), claimMutate)
+		if i%2 == 1 { // churn: two targets, two services, frequent close / re-watch
+			l.Ops = c06.GenHistory(r, 2+r.Intn(maxOps-1), true, claimMutateWith(svcPool[:2]))
+		} else {
+			l.Ops = c06.GenHistory(r, 2+r.Intn(maxOps-1), false, claimMutate)
+		}
 		emit(l.String())
 	}
 }
